@@ -1322,8 +1322,8 @@ class Engine:
       else:
         raise Unsupported(f'except {x!r}')
     for n in names:
-      if n in ('Exception', 'BaseException') or exc.name == n or \
-          n in EXC_PARENTS.get(exc.name, ()):
+      if n == 'BaseException' or exc.name == n or n in EXC_PARENTS.get(exc.name, ()) or \
+          (n == 'Exception' and exc.name not in ('KeyboardInterrupt', 'SystemExit', 'GeneratorExit')):
         return True
     return False
 
@@ -1811,6 +1811,8 @@ class UnknownBinding(Val):
 EXC_PARENTS = {
     'KeyError': ('LookupError',), 'IndexError': ('LookupError',),
     'UnboundLocalError': ('NameError',), 'FileNotFoundError': ('OSError', 'IOError'),
+    'FileExistsError': ('OSError', 'IOError'), 'PermissionError': ('OSError', 'IOError'),
+    'ConnectionError': ('OSError', 'IOError'), 'LZMAError': (), 'HTTPError': ('OSError', 'IOError'),
     'ZeroDivisionError': ('ArithmeticError',),
     'UnpicklingError': ('PickleError',),
     'NotFoundError': ('OpError',),
@@ -2264,7 +2266,8 @@ BUILTINS = {
 for _n in ['ValueError', 'KeyError', 'IndexError', 'TypeError', 'StopIteration',
            'RuntimeError', 'AssertionError', 'NotImplementedError', 'OSError',
            'IOError', 'Exception', 'AttributeError', 'FileNotFoundError',
-           'ZeroDivisionError', 'LookupError', 'NameError', 'UnboundLocalError']:
+           'ZeroDivisionError', 'LookupError', 'NameError', 'UnboundLocalError', 'BaseException',
+           'FileExistsError', 'KeyboardInterrupt', 'SystemExit', 'ArithmeticError', 'PermissionError']:
   BUILTINS[_n] = ExcClass(_n)
 
 
